@@ -384,6 +384,15 @@ type PalCase struct {
 	// without any Reset (the zero value implies the default metadata); 2 a graphic under this very
 	// palette; 3 a graphic under another custom palette.
 	Used int `json:"used,omitempty"`
+	// ViewBox: the graphic also has a viewBox of its own (a second metadata chunk).
+	ViewBox bool `json:"viewbox,omitempty"`
+}
+
+func (c PalCase) vb() ivg.ViewBox {
+	if c.ViewBox {
+		return ivg.ViewBox{MinX: -24, MinY: -20.5, MaxX: 24, MaxY: 300}
+	}
+	return ivg.DefaultViewBox
 }
 
 func checkPalette(c PalCase) error {
@@ -401,7 +410,7 @@ func checkPalette(c PalCase) error {
 		enc.ClosePathEndPath()
 		enc.Bytes()
 	}
-	enc.Reset(ivg.DefaultViewBox, [64]color.RGBA(c.Palette))
+	enc.Reset(c.vb(), [64]color.RGBA(c.Palette))
 	b, err := enc.Bytes()
 	if err != nil {
 		return harness.Violatef("c09/bytes-error", "Bytes: %v", err)
@@ -456,6 +465,10 @@ func TestSuggestedPalettes(t *testing.T) {
 			}
 		}
 		var labels []string
+		if rapid.IntRange(0, 2).Draw(t, "hasvb") == 0 {
+			c.ViewBox = true
+			labels = append(labels, "graphic-has-a-viewbox-chunk-too")
+		}
 		if rapid.IntRange(0, 2).Draw(t, "hasused") == 0 {
 			c.Used = rapid.IntRange(1, 3).Draw(t, "used")
 			labels = append(labels, fmt.Sprintf("encoder-used-before(kind-%d)", c.Used))
